@@ -37,7 +37,7 @@ package actor
 
 // Publishing an event: one Broadcast entry in the effect log (the routing of
 // the event to the stream actor is C09/C12).
-//@ func (*Engine).BroadcastEvent(msg)
+//@ func (e *Engine).BroadcastEvent(msg)
 //@   trusted
 //@   modifies
 //@   emits Broadcast(e, msg)
@@ -53,7 +53,7 @@ package actor
 //@ guarded Registry(r) by mu footprint r.lookup, mapof(r.lookup)
 //@ lockinv[C10.inv] r.lookup != nil
 
-//@ func (*Registry).add(proc)
+//@ func (r *Registry).add(proc)
 //@   props C10 C04
 //@   requires r != nil && r.engine != nil && !isnil(proc)
 //@   modifies heap except private, mapof(r.lookup), log, loglen
@@ -67,7 +67,7 @@ package actor
 //@   ensures[C10.add.dup-event] old(has(r.lookup, pidof(proc).ID)) ==> loglen == entry(loglen) + 1 && log[entry(loglen)] == Broadcast(r.engine, ActorDuplicateIdEvent{PID: pidof(proc)})
 //@   ensures[C10.add.winner-started] !old(has(r.lookup, pidof(proc).ID)) ==> loglen == entry(loglen) + 2 && log[entry(loglen)] == RegAdd(r, pidof(proc).ID, proc) && log[entry(loglen) + 1] == ProcStart(proc)
 
-//@ func (*Registry).Remove(pid)
+//@ func (r *Registry).Remove(pid)
 //@   props C10
 //@   requires r != nil && pid != nil
 //@   modifies mapof(r.lookup)
@@ -76,7 +76,7 @@ package actor
 //@   atunlock[C10.remove.only] forallS("Str", id, has(r.lookup, id) == (old(has(r.lookup, id)) && id != pid.ID))
 //@   atunlock[C10.remove.kept] forallS("Str", id, r.lookup[id] == old(r.lookup[id]))
 
-//@ func (*Registry).get(pid)
+//@ func (r *Registry).get(pid)
 //@   props C10
 //@   requires r != nil
 //@   modifies
@@ -84,14 +84,14 @@ package actor
 //@   ensures[C10.get.hit] pid != nil && old(has(r.lookup, pid.ID)) ==> result == old(r.lookup[pid.ID])
 //@   ensures[C10.get.miss] pid != nil && !old(has(r.lookup, pid.ID)) ==> isnil(result)
 
-//@ func (*Registry).getByID(id)
+//@ func (r *Registry).getByID(id)
 //@   props C10
 //@   requires r != nil
 //@   modifies
 //@   ensures[C10.getbyid.hit] old(has(r.lookup, id)) ==> result == old(r.lookup[id])
 //@   ensures[C10.getbyid.miss] !old(has(r.lookup, id)) ==> isnil(result)
 
-//@ func (*Registry).GetPID(kind, id)
+//@ func (r *Registry).GetPID(kind, id)
 //@   props C10
 //@   requires r != nil
 //@   modifies
@@ -100,7 +100,7 @@ package actor
 //@   ensures[C10.getpid.hit] !isnil(got) ==> result == pidof(got)
 //@   ensures[C10.getpid.miss] isnil(got) ==> result == nil
 
-//@ func (*Context).GetPID(id)
+//@ func (c *Context).GetPID(id)
 //@   props C10
 //@   requires c != nil && c.engine != nil && c.engine.Registry != nil
 //@   modifies
@@ -111,7 +111,7 @@ package actor
 
 // SpawnProc: exactly the effect of Registry.add (register-or-report), then the
 // PID of the processer that was handed in.
-//@ func (*Engine).SpawnProc(p)
+//@ func (e *Engine).SpawnProc(p)
 //@   props C10
 //@   requires e != nil && e.Registry != nil && e.Registry.engine != nil && !isnil(p)
 //@   modifies heap except private, log, loglen
@@ -248,18 +248,18 @@ package actor
 //@   modifies
 //@   emits InboxSend(self, env.Msg, env.Sender)
 
-//@ func (*Engine).Poison(pid)
+//@ func (e *Engine).Poison(pid)
 //@   trusted
 //@   modifies
 //@   emits_ok PoisonSent(e, pid, result)
 //@   ensures !isnil(result)
 
-//@ func (*Context).Children()
+//@ func (c *Context).Children()
 //@   trusted
 //@   modifies
 //@   ensures fresh(result)
 
-//@ func (*process).cleanup(cancel)
+//@ func (p *process).cleanup(cancel)
 //@   props C06 C07 C13 C04 C08 C10 C12 C02
 //@   requires procInv(p) && curproc == p && !isnil(p.context.receiver)
 //@   requires[C04.cleanup.live] phase == 1 || phase == 2 || (phase == 3 && afterCrash)
@@ -303,7 +303,7 @@ package actor
 //@   trusted
 //@   pure
 
-//@ func (*process).tryRestart(v)
+//@ func (p *process).tryRestart(v)
 //@   props C05 C06 C04 C12 C02
 //@   requires procInv(p) && curproc == p && !isnil(p.context.receiver) && budgetInv(p) && !afterCrash && mbufOK(p)
 //@   requires !(istype(v, *InternalError) && v.(*InternalError) == nil)
@@ -328,7 +328,7 @@ package actor
 //@   ensures !isnil(p.context.receiver) && procInv(p)
 //@   ensures[C04.tryrestart.log-prefix] loglen >= entry(loglen) && forall(k, 0 <= k && k < entry(loglen) ==> log[k] == entry(log)[k])
 
-//@ func (*process).Start()
+//@ func (p *process).Start()
 //@   props C04 C05 C13 C12 C06 C02 C07
 //@   requires procInv(p) && curproc == p && budgetInv(p) && !afterCrash && mbufOK(p)
 //@   requires[C04.start.no-live-incarnation] phase == 3
@@ -367,7 +367,7 @@ package actor
 //@ pred isPill(m) := istype(m, poisonPill)
 //@ pred deliveryOf(p, m, snd) := Deliver(chainOf(boundmethod(p.context.receiver, "Receive"), p.Opts.Middleware), p.context, m, snd)
 
-//@ func (*process).invokeMsg(msg)
+//@ func (p *process).invokeMsg(msg)
 //@   props C01 C13 C07
 //@   requires procInv(p) && curproc == p && !isnil(p.context.receiver) && !afterCrash
 //@   requires[C04.invokemsg.started] !isPill(msg.Msg) ==> phase == 2
@@ -381,7 +381,7 @@ package actor
 //@   ghost at call applyMiddleware()#1 before: assert[C01.invokemsg.context] p.context.message == msg.Msg && p.context.sender == msg.Sender
 //@   ghost at call Receive#1 before: assert[C01.invokemsg.context] p.context.message == msg.Msg && p.context.sender == msg.Sender
 
-//@ func (*process).Invoke(msgs)
+//@ func (p *process).Invoke(msgs)
 //@   props C01 C05 C07 C04 C13 C06 C02
 //@   requires procInv(p) && curproc == p && !isnil(p.context.receiver) && budgetInv(p) && !afterCrash
 //@   requires[C04.invoke.started] phase == 2
@@ -464,24 +464,24 @@ package actor
 //@   modifies
 //@   emits RemoteSend(self, pid, msg, sender)
 
-//@ func (*Engine).isLocalMessage(pid)
+//@ func (e *Engine).isLocalMessage(pid)
 //@   props C01 C09
 //@   requires e != nil
 //@   pure
 //@   ensures[C01.islocal.def] result == (pid != nil && e.address == pid.Address)
 
-//@ func (*Engine).SendLocal(pid, msg, sender)
+//@ func (e *Engine).SendLocal(pid, msg, sender)
 //@   props C01 C09 C16
 //@   requires engInv(e)
 //@   nopanic[C09.sendlocal.nopanic]
 //@   modifies log, loglen
 //@   ghost at call get#1 before: assert[C01.sendlocal.lookup-target] arg0 == e.Registry && arg1 == pid
 //@   ghost at call get#1: got = result
-//@   ghost at return#1: assert[C09.deadletter.once] isnil(got) && loglen == entry(loglen) + 1 && log[entry(loglen)] == Broadcast(e, DeadLetterEvent{Target: pid, Message: msg, Sender: sender})
-//@   ghost at return#2: assert[C01.sendlocal.once] !isnil(got) && loglen == entry(loglen) + 1 && log[entry(loglen)] == ProcSend(got, pid, msg, sender)
+//@   ghost at return: assert[C09.deadletter.once] isnil(got) ==> loglen == entry(loglen) + 1 && log[entry(loglen)] == Broadcast(e, DeadLetterEvent{Target: pid, Message: msg, Sender: sender})
+//@   ghost at return: assert[C01.sendlocal.once] !isnil(got) ==> loglen == entry(loglen) + 1 && log[entry(loglen)] == ProcSend(got, pid, msg, sender)
 //@   ensures[C01.sendlocal.effect] loglen == entry(loglen) + 1 && sentLocal(e, pid, msg, sender, entry(loglen)) && logPrefix(entry(loglen))
 
-//@ func (*Engine).send(pid, msg, sender)
+//@ func (e *Engine).send(pid, msg, sender)
 //@   props C01 C09 C17
 //@   requires engInv(e)
 //@   nopanic[C09.send.nopanic]
@@ -492,14 +492,14 @@ package actor
 //@   ensures[C17.send.remote-route] pid != nil && e.address != pid.Address && !isnil(e.remote) ==> loglen == entry(loglen) + 1 && log[entry(loglen)] == RemoteSend(e.remote, pid, msg, sender)
 //@   ensures[C01.send.log-prefix] logPrefix(entry(loglen))
 
-//@ func (*Engine).Send(pid, msg)
+//@ func (e *Engine).Send(pid, msg)
 //@   props C01 C09
 //@   requires engInv(e)
 //@   nopanic[C09.send.nopanic]
 //@   modifies log, loglen
 //@   ensures[C01.send.effect] sendEffect(e, pid, msg, nil, entry(loglen), loglen) && logPrefix(entry(loglen))
 
-//@ func (*Engine).SendWithSender(pid, msg, sender)
+//@ func (e *Engine).SendWithSender(pid, msg, sender)
 //@   props C01 C09
 //@   requires engInv(e)
 //@   nopanic[C09.send.nopanic]
@@ -509,18 +509,18 @@ package actor
 // A poison pill: unknown PID => dead letter + immediate cancel of the returned
 // context; otherwise the pill (carrying that context's cancel func) goes through
 // SendLocal. ctxcancel(c) names the cancel func of a context made by WithCancel.
-//@ func (*Engine).sendPoisonPill(ctx, graceful, pid)
+//@ func (e *Engine).sendPoisonPill(ctx, graceful, pid)
 //@   props C07 C09
 //@   requires engInv(e)
 //@   nopanic[C07.poison.nopanic]
 //@   modifies log, loglen
 //@   ghost at call get#1: got = result
-//@   ghost at return#1: assert[C07.pill.unknown-pid-cancelled-at-once] isnil(got) && loglen == entry(loglen) + 2 &&
+//@   ghost at return: assert[C07.pill.unknown-pid-cancelled-at-once] isnil(got) ==> loglen == entry(loglen) + 2 &&
 //@        log[entry(loglen)] == Broadcast(e, DeadLetterEvent{Target: pid, Message: poisonPill{cancel: ctxcancel(result), graceful: graceful}, Sender: nil}) && log[entry(loglen) + 1] == Cancel(ctxcancel(result))
-//@   ghost at return#2: assert[C07.pill.enqueued-once] !isnil(got) && loglen == entry(loglen) + 1 && sentLocal(e, pid, poisonPill{cancel: ctxcancel(result), graceful: graceful}, nil, entry(loglen))
+//@   ghost at return: assert[C07.pill.enqueued-once] !isnil(got) ==> loglen == entry(loglen) + 1 && sentLocal(e, pid, poisonPill{cancel: ctxcancel(result), graceful: graceful}, nil, entry(loglen))
 //@   ensures[C07.poison.ctx] !isnil(result) && logPrefix(entry(loglen)) && loglen >= entry(loglen) + 1
 
-//@ func (*Engine).Stop(pid)
+//@ func (e *Engine).Stop(pid)
 //@   props C07
 //@   requires engInv(e)
 //@   modifies log, loglen
@@ -553,7 +553,7 @@ package actor
 //@   abstract
 //@   pure
 
-//@ func (*process).Send(a, msg, sender)
+//@ func (p *process).Send(a, msg, sender)
 //@   props C01
 //@   requires p != nil && !isnil(p.inbox)
 //@   modifies
@@ -607,7 +607,7 @@ package actor
 
 //@ pred inboxOK(in) := in != nil && in.rb != nil && !isnil(in.scheduler)
 
-//@ func (*Inbox).schedule()
+//@ func (in *Inbox).schedule()
 //@   props C02 C03 C01
 //@   requires inboxOK(in) && owes && !handoff
 //@   modifies in.procStatus, tokens, wakers, owes, handoff
@@ -617,7 +617,7 @@ package actor
 //@   ensures[C02.schedule.no-token-leak] !handoff
 //@   ensures[C03.exit.no-debt] !owes
 
-//@ func (*Inbox).Send(msg)
+//@ func (in *Inbox).Send(msg)
 //@   props C01 C02 C03
 //@   requires inboxOK(in) && !owes && !handoff
 //@   modifies in.procStatus, in.rb.content, in.rb.len, in.rb.content.*, elements(in.rb.content.items), tokens, wakers, owes, handoff
@@ -627,7 +627,7 @@ package actor
 //@   emits RingPush(in.rb)
 //@   ensures[C03.exit.no-debt] !owes
 
-//@ func (*Inbox).process()
+//@ func (in *Inbox).process()
 //@   props C02 C03
 //@   requires inboxOK(in) && tok && !owes && !handoff
 //@   modifies heap except H$actor.Inbox$rb H$actor.Inbox$scheduler, stoppedByMe, tokens, wakers, log, loglen, tok, owes, handoff
@@ -637,7 +637,7 @@ package actor
 //@   ensures[C03.exit.no-debt] !owes
 //@   ensures[C02.process.releases-the-token] !tok
 
-//@ func (*Inbox).run()
+//@ func (in *Inbox).run()
 //@   props C01 C02 C03
 //@   requires inboxOK(in) && tok && !owes
 //@   ghost at call PopN#1 before: assert[C01.run.pops-own-ring] arg0 == in.rb && arg1 >= 1
@@ -650,7 +650,7 @@ package actor
 //@   loop 1
 //@     invariant inboxOK(in) && tok && !owes
 
-//@ func (*Inbox).Start(proc)
+//@ func (in *Inbox).Start(proc)
 //@   props C02 C03 C04
 //@   requires inboxOK(in) && !isnil(proc) && !owes && !starter && !published && !handoff
 //@   requires[C02.start.only-unstarted-or-running] startPerm || (tok && !stoppedByMe)
@@ -660,7 +660,7 @@ package actor
 //@   ghost at call SwapInt32#1: starter = false; published = false; wakers = wakers + 1; owes = true
 //@   ensures[C03.exit.no-debt] !owes && !starter
 
-//@ func (*Inbox).Stop()
+//@ func (in *Inbox).Stop()
 //@   props C02 C03
 //@   requires in != nil
 //@   requires[C02.stop.only-worker-or-unstarted-owner] tok || startPerm
@@ -672,7 +672,7 @@ package actor
 // Broadcast entry in the effect log). Its body is checked here against what
 // that entry stands for: the event is sent to the event-stream actor, with no
 // sender, through the ordinary send path (and dropped when there is no stream).
-//@ func (*Engine).BroadcastEvent!impl(msg)
+//@ func (e *Engine).BroadcastEvent!impl(msg)
 //@   props C09 C12
 //@   requires engInv(e)
 //@   nopanic[C09.broadcast.nopanic]
@@ -682,39 +682,39 @@ package actor
 // ---------------------------------------------------------------------------
 // Context accessors and helpers
 
-//@ func (*Context).Message()
+//@ func (c *Context).Message()
 //@   props C12 C11
 //@   requires c != nil
 //@   pure
 //@   ensures result == c.message
 
-//@ func (*Context).PID()
+//@ func (c *Context).PID()
 //@   props C11
 //@   requires c != nil
 //@   pure
 //@   ensures result == c.pid
 
-//@ func (*Context).Forward(pid)
+//@ func (c *Context).Forward(pid)
 //@   props C12 C09
 //@   requires c != nil && engInv(c.engine)
 //@   nopanic[C09.forward.nopanic]
 //@   modifies log, loglen
 //@   ensures[C12.forward.effect] sendEffect(c.engine, pid, c.message, c.pid, entry(loglen), loglen) && logPrefix(entry(loglen))
 
-//@ func (*Context).Respond(msg)
+//@ func (c *Context).Respond(msg)
 //@   props C11
 //@   requires c != nil && engInv(c.engine)
 //@   nopanic[C11.respond.nopanic]
 //@   modifies log, loglen
 //@   ensures[C11.respond.to-sender] (c.sender == nil ==> loglen == entry(loglen)) && (c.sender != nil ==> sendEffect(c.engine, c.sender, msg, nil, entry(loglen), loglen)) && logPrefix(entry(loglen))
 
-//@ func (*Engine).Subscribe(pid)
+//@ func (e *Engine).Subscribe(pid)
 //@   props C12
 //@   requires engInv(e)
 //@   modifies log, loglen
 //@   ensures[C12.subscribe.route] sendEffect(e, e.eventStream, eventSub{pid: pid}, nil, entry(loglen), loglen)
 
-//@ func (*Engine).Unsubscribe(pid)
+//@ func (e *Engine).Unsubscribe(pid)
 //@   props C12
 //@   requires engInv(e)
 //@   modifies log, loglen
@@ -740,7 +740,7 @@ package actor
 //@      (e.address != pid.Address && isnil(e.remote) ==> log[k] == Broadcast(e, EngineRemoteMissingEvent{Target: pid, Sender: sender, Message: msg})) &&
 //@      (e.address != pid.Address && !isnil(e.remote) ==> log[k] == RemoteSend(e.remote, pid, msg, sender))
 
-//@ func (*eventStream).Receive(c)
+//@ func (e *eventStream).Receive(c)
 //@   props C12 C09
 //@   requires e != nil && e.subs != nil && c != nil && engInv(c.engine)
 //@   nopanic[C12.stream.nopanic]
@@ -774,20 +774,20 @@ package actor
 //@   modifies
 //@   ensures fresh(result) && result != nil && result.engine == e && result.pid != nil && result.pid.Address == e.address && result.result != nil
 
-//@ func (*Response).PID()
+//@ func (r *Response).PID()
 //@   props C11
 //@   requires r != nil
 //@   pure
 //@   ensures result == r.pid
 
-//@ func (*Response).Send(a, msg, b)
+//@ func (r *Response).Send(a, msg, b)
 //@   props C11
 //@   requires r != nil
 //@   modifies
 //@   ghost at chansend: emit ChanSend(ch, sent)
 //@   emits ChanSend(r.result, msg)
 
-//@ func (*Response).Result()
+//@ func (r *Response).Result()
 //@   props C11 C10
 //@   requires r != nil && engInv(r.engine) && r.pid != nil
 //@   nopanic[C11.result.nopanic]
@@ -802,7 +802,7 @@ package actor
 //@ func (*Response).Result$1()
 //@   inline
 
-//@ func (*Engine).Request(pid, msg, timeout)
+//@ func (e *Engine).Request(pid, msg, timeout)
 //@   props C11
 //@   requires engInv(e)
 //@   modifies heap except private, log, loglen
@@ -810,7 +810,7 @@ package actor
 //@   ghost at call SendWithSender#1 before: assert[C11.request.sends-after-registering-with-response-as-sender] arg1 == pid && arg2 == msg && arg3 == resp.pid && loglen > entry(loglen)
 //@   ensures[C11.request.response] result != nil && fresh(result) && result.engine == e && result.pid != nil
 
-//@ func (*Context).Sender()
+//@ func (c *Context).Sender()
 //@   props C11 C20
 //@   requires c != nil
 //@   pure
@@ -852,7 +852,7 @@ package actor
 //@   modifies
 //@   ensures result != nil
 
-//@ func (*process).PID()
+//@ func (p *process).PID()
 //@   props C08
 //@   requires p != nil
 //@   pure
@@ -874,7 +874,7 @@ package actor
 //@   ensures result != nil && fresh(result) && result.context != nil && fresh(result.context) && result.context.parentCtx == nil && result.context.children != nil &&
 //@        result.pid != nil && result.context.pid == result.pid && result.context.engine == e && result.pid.Address == e.address && result.pid.ID == opts.Kind + pidSeparator + opts.ID
 
-//@ func (*Context).SpawnChild(p, name, opts)
+//@ func (c *Context).SpawnChild(p, name, opts)
 //@   props C08
 //@   modifies heap except private, mapof(c.children.data), log, loglen, startPerm
 //@   requires c != nil && c.pid != nil && engInv(c.engine) && c.children != nil && forall(k, 0 <= k && k < len(opts) ==> opts[k] != nil)
@@ -886,13 +886,13 @@ package actor
 //@   loop 1
 //@     invariant rangeindex >= -1
 
-//@ func (*Context).Parent()
+//@ func (c *Context).Parent()
 //@   props C08
 //@   requires c != nil
 //@   modifies
 //@   ensures[C08.parent] (c.parentCtx != nil ==> result == c.parentCtx.pid) && (c.parentCtx == nil ==> result == nil)
 
-//@ func (*Context).Child(id)
+//@ func (c *Context).Child(id)
 //@   props C08
 //@   requires c != nil && c.children != nil
 //@   modifies
@@ -908,14 +908,14 @@ package actor
 //@ ghost func hkinv(Int) Str
 //@ axiom[hk.collision-free] forallS("Str", s, hkinv(hk(s)) == s, hk(s))
 
-//@ func (*PID).LookupKey()
+//@ func (pid *PID).LookupKey()
 //@   trusted
 //@   pure
 //@   ensures result == hk(pid.Address + pid.ID)
 
 // Engine.Spawn: options, (random) id, newProcess, then SpawnProc - the only
 // way a spawned process gets registered and started.
-//@ func (*Engine).Spawn(p, kind, opts)
+//@ func (e *Engine).Spawn(p, kind, opts)
 //@   props C10
 //@   requires engInv(e) && forall(k, 0 <= k && k < len(opts) ==> opts[k] != nil)
 //@   modifies heap except private, log, loglen, startPerm
@@ -928,13 +928,17 @@ package actor
 
 // The restart budget an actor is spawned with is the one that was asked for
 // (every value >= 0, zero included).
+//@ func WithMaxRestarts(n)
+//@   props C06
+//@   pure
+
 //@ func WithMaxRestarts$1(opts)
 //@   props C06
 //@   requires opts != nil
 //@   modifies opts.MaxRestarts
 //@   ensures[C06.config.budget-is-the-value-asked-for] n >= 0 ==> opts.MaxRestarts == n
 
-//@ func (*Engine).Address()
+//@ func (e *Engine).Address()
 //@   props C19
 //@   requires e != nil
 //@   pure
@@ -943,7 +947,7 @@ package actor
 // Engine.Poison / PoisonCtx: callers (cleanup, the cluster agent) use the
 // abstract contract above (one PoisonSent entry carrying the returned
 // context); the bodies are checked here: a graceful pill for exactly that pid.
-//@ func (*Engine).Poison!impl(pid)
+//@ func (e *Engine).Poison!impl(pid)
 //@   props C07
 //@   requires engInv(e)
 //@   modifies log, loglen
@@ -952,7 +956,7 @@ package actor
 //@   ghost at return#1: assert[C07.poison.returns-the-pills-context] result == inner
 //@   ensures !isnil(result) && logPrefix(entry(loglen))
 
-//@ func (*Engine).PoisonCtx(ctx, pid)
+//@ func (e *Engine).PoisonCtx(ctx, pid)
 //@   props C07
 //@   requires engInv(e)
 //@   modifies log, loglen
